@@ -27,7 +27,8 @@ RULE = ("seeded single configurations: d∈{2,3} × N≤14 (every fifth g(r) cas
         "values on a 2-decimal grid (dyadic for 32-bit dtypes).  A g(r) case is judged when every rint argument and every "
         "distance is ≥1e-6 from its flip point; an S(q) case when distinct |q| are ≥1.2e-4 apart (exact ℚ check).  "
         "non-trivial = the weighted histogram / structure factor has a non-zero entry and ≥2 particles enter; distinct = "
-        "distinct literal inputs")
+        "distinct literal inputs.  Scale stream (labelled test): conditional_gr on N ≈ 1 100 – 1 700 particles with coarse bins, bool "
+        "and real conditions, against the numpy brute force of the statement (per-particle per-bin counts > 127, ~10⁶ pairs)")
 TRUSTED_BASE = [
     "Lean 4.33 kernel; axioms propext, Classical.choice, Quot.sound only; the regenerated dispatch is evaluated by the kernel",
     "proved for all inputs over any ordered field (complex numbers as pairs): for every condition kind and every dtype of that "
@@ -827,6 +828,16 @@ def correspond(run):
         dis += d1
         fail += f1
     run.coverage["traces_validated_against_impl"] = run.coverage["evaluations"]
+    # scale stream: N ≈ 1 000 – 2 000, coarse bins (counts per particle and bin far above 127), numpy brute force of the statement
+    scases = [gen_scale_case(run.rng, k) for k in (["bool", "real"] if quick else ["bool", "real"] * 4)]
+    for c in scases:
+        w = failing_scale(c)
+        run.hist("stream", "scale:" + c["skind"])
+        if w and w[0] == "skip":
+            continue
+        run.count(c, True)
+        if w:
+            fail.append((c, w))
     bad = cross_check_spec(run, cases[:40 if quick else 200])
     if bad:
         raise common.Infra("Lean Spec and the independent brute force disagree on " + op_line(bad[0])[:300])
@@ -844,12 +855,72 @@ def correspond(run):
 
 # ----------------------------------------------------------------------------- search / shrink / replay
 
+# ----------------------------------------------------------------------------- scale stream (labelled test, see harness/gen/scale.py)
+
+def gen_scale_case(rng, kind):
+    from gen import scale
+    p = scale.gen_scale_params(rng, K=2)
+    p.update({"op": "gr", "skind": kind, "species": rng.choice([1, 2])})
+    return p
+
+
+def failing_scale(c):
+    """real conditional_gr on a large configuration against the numpy brute force of the statement"""
+    from gen import scale
+    from PyMatterSim.reader.reader_utils import SingleSnapshot
+    from PyMatterSim.static.gr import conditional_gr
+    pos, types, L = scale.scale_arrays(c)
+    N, d, delta = c["N"], c["d"], float(c["rdelta"])
+    maxbin = int(L.min() / 2.0 / delta)
+    if c["skind"] == "bool":
+        cond = types == c["species"]
+        w = cond.astype(float)
+        n = int(cond.sum())
+        ctype = None
+    else:
+        g = np.random.default_rng(c["sseed"] + 1)
+        cond = np.round(g.uniform(0.5, 2.5, size=N), 3)
+        w = cond
+        n = N
+        ctype = None
+    tot, wsum, margin = scale.pair_hist(pos, L, delta, maxbin, w)
+    if margin < 1e-9:
+        return ("skip", "margin")
+    V = float(np.prod(L))
+    exp = {"r": [(k + 0.5) * delta for k in range(maxbin)],
+           "gr": [V / (N * N) * tot[k] / scale.shell(d, k, delta) for k in range(maxbin)],
+           "gA": [V / (n * n) * wsum[k] / scale.shell(d, k, delta) for k in range(maxbin)]}
+    snap = SingleSnapshot(timestep=0, nparticle=N, particle_type=types, positions=pos.copy(), boxlength=L.copy(),
+                          boxbounds=np.column_stack((np.zeros(d), L)), realbounds=None, hmatrix=np.diag(L))
+    try:
+        with np.errstate(all="ignore"):
+            df = conditional_gr(snap, cond.copy(), ctype, np.array([1] * d), delta)
+    except Exception as e:
+        return ("raise", f"real conditional_gr raised {type(e).__name__}: {e} (N = {N}, scale stream)")
+    for col, ev in exp.items():
+        if col not in df.columns:
+            return ("columns", f"scale stream: column {col} missing from {list(df.columns)}")
+        rv = [float(x) for x in df[col].values]
+        if len(rv) != len(ev):
+            return ("bins", f"scale stream: column {col} has {len(rv)} rows, expected {len(ev)} bins")
+        for k, (a, b) in enumerate(zip(rv, ev)):
+            if not common.close(a, b, 1e-9):
+                return (col, f"scale stream (N = {N}, {c['skind']} condition, rdelta {c['rdelta']}): {col}[bin {k}] returned {a!r} "
+                             f"but the weighted ordered-pair histogram of the statement gives {b!r}")
+    return None
+
+
 def sig(c):
+    if c.get("scale"):
+        return f"conditional_gr:scale:{c['skind']}"
     cond = c["cond"]
     return f"{'conditional_gr' if c['op'] == 'gr' else 'conditional_sq'}:{cond['kind']}:{cond['dtype']}"
 
 
 def real_failure(c):
+    if c.get("scale"):
+        w = failing_scale(c)
+        return w if w and w[0] != "skip" else None
     w = failing(c)
     return w if w and w[0] != "skip" else None
 
@@ -864,6 +935,8 @@ def drop_particle(c, a):
 
 
 def shrink(c):
+    if c.get("scale"):
+        return c
     best = c
     changed = True
     while changed and best["N"] > 2:
